@@ -408,6 +408,9 @@ ADVERSARIAL = [
     ('two-incompatible-callees', 'def c1(x, /): return None\ndef c2(*, x): return None\ndef f(*args, **kwargs):\n    c1(*args, **kwargs)\n    return c2(*args, **kwargs)'),
     ('forwarding-to-own-parameter-default', 'def f(a, *args, fn=target, **kwargs):\n    return fn(*args, **kwargs)\nf2 = functools.partial(f, 1)\nf3 = functools.partial(f, 1, fn=sink)'),
     ('annotation-unevaluable-postponed', 'from __future__ import annotations\ndef callee(x: NotDefinedAnywhere, y: AlsoNot = 1) -> Nope: return None\ndef f(a, *args, **kwargs):\n    return callee(*args, **kwargs)\ndef f2(a, *args, **kwargs):\n    return callee(0, *args, y=2, **kwargs)\ndef f3(a, *args, **kwargs):\n    return callee(*args, y=2, **kwargs)'),
+    ('nested-def-with-required-keyword-only', 'def f(a, *args, **kwargs):\n    def inner(x, *, q, r=1): return q\n    lam = lambda y=2, *, k: k\n    async def co(*, z): return z\n    return target(*args, **kwargs)'),
+    ('nested-def-with-defaults-and-decorators', 'def f(a, *args, **kwargs):\n    @functools.lru_cache(maxsize=None)\n    def inner(x=len(args), *more, q=sink(1), **kw): return x\n    class K(object):\n        def m(self, *, k, j=2): return k\n    return target(*args, **kwargs)'),
+    ('nested-def-posonly-and-annotations', 'def f(a, *args, **kwargs):\n    def inner(x: int, /, y: "str" = 1, *v: int, k: int, **w: int) -> None: return None\n    return target(*args, **kwargs)'),
     ('exec-defined-no-source', None),
     ('builtins', None),
 ]
